@@ -9,7 +9,7 @@
    LOAD <fm><fq> <h0> <k> { <nsub> { <nnodes> <node>.. } } <text hex>
         node: desc/skipped/vt    vt: n | s<w> | i | b | d
         -> "LOAD <ndatasets> ; H <17 ints> <hs hex|-> ; S <val>.. / <unconsumed nodes> ; S .. ; H ..."
-           val: desc:af|-:( - | M | i<z> | d<m>e<e> | s<hex> | U | C )
+           val: desc:af|-:( - | M | i<z> | d<m>^<e> | s<hex> | U | C )
 *)
 let zs (s : string) : z =
   if String.length s > 3 && s.[0] = '-' && s.[1] = '0' && s.[2] = 'x' then
@@ -61,7 +61,7 @@ let parse_node (tok : string) : lnode =
 let show_tv (v : tokval) : string =
   match v with
   | TV_none -> "-" | TV_missing -> "M" | TV_int z -> "i" ^ string_of_z z
-  | TV_dec (m, e) -> "d" ^ string_of_z m ^ "e" ^ string_of_z e
+  | TV_dec (m, e) -> "d" ^ string_of_z m ^ "^" ^ string_of_z e
   | TV_str s -> "s" ^ hz s | TV_unmodelled -> "U" | TV_crash -> "C"
 let show_lv (d, lv) = Printf.sprintf "%s:%s:%s" (string_of_z d) (match lv.lv_af with None -> "-" | Some a -> string_of_z a) (show_tv lv.lv_val)
 let show_hdr (h : header) = String.concat "," (List.map string_of_z h.h_vals) ^ " " ^ (match h.h_string with None -> "-" | Some [] -> "e" | Some s -> hz s)
